@@ -221,6 +221,14 @@ class Engine(object):
         goal(conc) then follows by instantiating v := conc; `facts` and `goal` must be schematic (apply the same operations to
         whatever values they receive).  Returns goal(conc) as a Bool term; the caller may add it to the path condition."""
         pc = list(self.pc if pc is None else pc)
+        saved_side = self.side_enabled
+        self.side_enabled = False      # spec-level expressions: SMT's total semantics of division applies to both steps
+        try:
+            return self._abstract_lemma(name, conc, facts, goal, pc)
+        finally:
+            self.side_enabled = saved_side
+
+    def _abstract_lemma(self, name, conc, facts, goal, pc):
         fc = facts(conc)
         for label, cond in fc:
             for k, t in enumerate(self._cond_terms(cond)):
